@@ -40,11 +40,13 @@ Definition split_option (t : str) : bool * str * option str :=
      | (n, None) => (true, n, None)
      end)
   | 45 :: body =>
-    (match body with
-     | c :: 61 :: a => if N.eqb c 61 then
-                         (* first '=' is at index 0, not 1 *) (false, body, None)
-                       else (false, [c], Some a)
-     | _ => (false, body, None)
+    (* short form: split only when the first '=' directly follows the first character *)
+    let n := snd (decode_rune body) in
+    (match index_byte body 61 with
+     | Some pos => if Nat.ltb 0 pos && Nat.eqb pos n
+                   then (false, firstn pos body, Some (skipn (S pos) body))
+                   else (false, body, None)
+     | None => (false, body, None)
      end)
   | _ => (false, t, None)
   end.
